@@ -388,6 +388,17 @@ func simOpenFaults(p *LockSeq, c map[string]int) (v *harness.Violation) {
 		return &harness.Violation{Clause: "open-after-release", Item: -1, Msg: fmt.Sprintf("reopen failed: %v", err)}
 	}
 	counts := d.Counts()
+	// Close whose munmap reports an error: whatever Close returns, the lock is released
+	d.Arm(&simdisk.Fault{Kind: simdisk.CallMUnmap, Ordinal: 0, Burst: 1})
+	f.Close()
+	c["sim-close-with-failing-munmap"]++
+	if d.Locked() {
+		return &harness.Violation{Clause: "close-fault-lock", Item: -1, Msg: "File.Close with a failing munmap left the file locked"}
+	}
+	d.Arm(nil)
+	if f, err = txfile.VerifOpen(d, txfile.Options{}); err != nil {
+		return &harness.Violation{Clause: "open-after-release", Item: -1, Msg: fmt.Sprintf("after a Close whose munmap failed the next Open failed: %v", err)}
+	}
 	f.Close()
 	for _, k := range []simdisk.CallKind{simdisk.CallSize, simdisk.CallRead, simdisk.CallMMap} {
 		for ord := 0; ord < counts[k]; ord++ {
